@@ -104,6 +104,8 @@ def run_harness(ctx, grp, h):
            "-Z", "concrete-playback", "--concrete-playback=print", "--no-assertion-reach-checks", "--target-dir", tdir]
     if h.get("stub") == "1":
         cmd += ["-Z", "stubbing"]
+    if os.path.exists(os.path.join(grp["dir"], "verif_uf.c")):
+        cmd += ["-Z", "c-ffi", "--c-lib", os.path.join(grp["dir"], "verif_uf.c")]
     if h.get("solver"):
         cmd += ["--solver", h["solver"]]
     feats = grp["variant"].get("features", [])
@@ -310,7 +312,13 @@ def main():
                     if h.get("prop") and not (accept & set(h["prop"].split(","))):
                         continue
                     hs.append(h)
-            sel = [h for h in hs if not (a.tier == "quick" and h["tier"] != "quick") and not (a.only and a.only not in h["name"])]
+            def wanted(h):
+                # --only: comma-separated substrings matched against "<variant>/<module>::<harness name>"
+                if not a.only:
+                    return True
+                full = "%s/%s::%s" % (vname, h["_mod"], h["name"])
+                return any(o and o in full for o in a.only.split(","))
+            sel = [h for h in hs if not (a.tier == "quick" and h["tier"] != "quick") and wanted(h)]
             if not sel:
                 continue
             gid = re.sub(r"[^A-Za-z0-9_]+", "_", vname)
@@ -325,7 +333,7 @@ def main():
             for h in hs:
                 if a.tier == "quick" and h["tier"] != "quick":
                     continue
-                if a.only and a.only not in h["name"]:
+                if not wanted(h):
                     continue
                 groups.append((grp, h))
         # longest first
